@@ -202,7 +202,8 @@ def main():
 
 
 NA = {}
-SOURCE_COMMITS = ["e91d74a fix: reject invalid UTF-8 inside literals and QName local parts", "ad0dbf5 fix: CreateProgram no longer panics when the error position underflows", "f5b2578 fix: a submodule may have at most one organization statement", "7be1c78 fix: spell the yin-element keyword correctly", "9e6f860 fix: boolean arguments accept only true and false", "779e276 fix: integer arguments are decimal only", "b95096a fix: identifiers are ASCII as the YANG ABNF requires", "2221591 fix: NewFakeNodeByType no longer writes into the shared cardinality table", "53dc864 fix: div follows IEEE 754 for a zero denominator", "ea66e69 fix: boolean() of NaN is false", "588031e fix: round() rounds ties towards positive infinity", "362e2bb fix: string() of a number never uses exponent notation", "9ac8c0a fix: string-length() and substring() count characters, not bytes", "9cf326e fix: a run stops at the first error an instruction reports", "fb4c9e7 fix: the tested-function table is accessed under the function-table lock", "8440a3d fix: the YANG lexer no longer hangs when the text ends inside an unquoted word", "bd7a52f fix: a failed parse no longer leaks the lexer goroutine", "8d5ab76 fix: a typedef that refers to itself is an error, not a stack overflow", "3484836 fix: shared features and groupings are not cycles", "71f7ba0 fix: grouping cycles through nested nodes are detected", "2ff1e55 fix: string length restrictions count characters, not bytes", "b580f61 fix: decoding a list entry whose key is not a scalar no longer panics", "129c467 fix: JSON numbers are not truncated to integers while decoding", "36fd764 fix: an empty leaf-list is encoded as null, not \"null]\""]
+import subprocess
+SOURCE_COMMITS = [l for l in reversed(subprocess.run(["git","-C","/repo","log","--format=%h %s","7008d44..HEAD"],capture_output=True,text=True).stdout.splitlines()) if l.strip()]
 
 if __name__ == "__main__":
     main()
